@@ -185,12 +185,26 @@ def putVals {α} (vals : NDArr α) (pix : List PosIx) (vget : List Nat → α) :
       | some c => vget c
       | none => vals.get j }
 
+/-- the keys that `orthogonal_indexer` turns into index arrays (`np.ix_`): every key that is not an integer and
+does not belong to the leading or to the trailing run of full slices of the key (those stay slices) -/
+def arrayKeyFlags (raw : List RawIx) : List Bool :=
+  let isFull := fun (r : RawIx) => r == RawIx.slice none none none
+  let lead := (raw.takeWhile isFull).length
+  let trail := (raw.reverse.takeWhile isFull).length
+  (List.range raw.length).map fun i =>
+    (match raw.getD i (.int 0) with | .int _ => false | _ => true) && decide (lead ≤ i) && decide (i + trail < raw.length)
+
+/-- the (index, axis) pairs that become index arrays -/
+def arrayKeys (axes : List Axis) (raw : List RawIx) : List (RawIx × Axis) :=
+  (((arrayKeyFlags raw).zip (raw.zip axes)).filter (·.1)).map (·.2)
+
 /-- NumPy's resolution of the per-dimension indices of an assignment.  NumPy does not bounds-check
-integer index arrays when the (outer) selection is empty: scalars and slices are always resolved,
-arrays only when every dimension selects something (otherwise only their length matters: it
-still enters the shape the right-hand side is broadcast to, and no cell is written). -/
+integer index arrays when the index arrays broadcast to nothing: scalars and slices are always resolved,
+arrays only when every INDEX ARRAY of the key (`arrayKeys`: a full slice at the start or at the end of the key
+stays a slice and is not one of them, even on a zero-length axis) selects something (otherwise only their
+length matters: it still enters the shape the right-hand side is broadcast to, and no cell is written). -/
 def putIndices (axes : List Axis) (raw : List RawIx) : Except Err (List PosIx) :=
-  let anyEmpty := (raw.zip axes).any fun (r, ax) =>
+  let anyEmpty := (arrayKeys axes raw).any fun (r, ax) =>
     match r with
     | .ints l => l.isEmpty
     | .mask m => !m.any id
